@@ -4,6 +4,7 @@ Everything here is a static view of the type-checked program: bodies, CFG, domin
 def-use, pretty printing.  Nothing is executed.
 """
 import json
+import re
 from collections import defaultdict
 
 
@@ -448,7 +449,12 @@ class Program:
     @classmethod
     def load(cls, path):
         with open(path) as f:
-            return cls(json.load(f))
+            text = f.read()
+        # serde's derive refers to serde through `extern crate serde as _serde` inside an anonymous
+        # const; rustc prints such paths through the first module that declares it
+        # (`model::mean_vari::_::_serde::de::Visitor`).  Normalise to `serde::`.
+        text = re.sub(r"\b(?:\w+::)+_::_serde::", "serde::", text)
+        return cls(json.loads(text))
 
     def body(self, path):
         return self.bodies.get(path)
